@@ -105,10 +105,12 @@ GHOSTFS = "ghost file system and listener registry: net.Listen on a unix path ad
 EXIT = "os.Exit(n) ends every goroutine of the modelled plugin process and records the status"
 prop("C16", ["prims.go", "m_print.go", "c16.go"],
      [run("serve", "harnessC16", ["refused", "serving"],
-          quick={"bound": "net/rpc plugin; configured cookie key empty or not; configured and environment cookie values arbitrary strings; PLUGIN_MULTIPLEX_GRPC unset / \"true\" / other; PLUGIN_CLIENT_CERT set or not"})],
+          quick={"bound": "net/rpc plugin; configured cookie key empty or not; configured and environment cookie values arbitrary strings; PLUGIN_MULTIPLEX_GRPC unset / set but empty / \"true\" / other; PLUGIN_CLIENT_CERT set or not"}),
+      run("serve-world", "harnessC16world", ["refused", "serving", "no-cookie-key", "client-cert"], files=WORLD,
+          quick={"bound": "a plugin process on the world model: net/rpc or gRPC, plain or versioned plugin sets (with a version list in the environment), cookie key configured or empty, cookie variable unset or an arbitrary string, PLUGIN_MULTIPLEX_GRPC unset / empty / true / other, client certificate set or not; checked: exit status, stdout, listener before line, field count, version, protocol, announced address accepting"})],
      [GHOSTFS, EXIT, STR, "crypto (generateCert, X509KeyPair, CertPool) opaque; os.Pipe/os.Stdout swap modelled; signal.Notify no-op"],
      ["os.Getenv/Exit/Pipe", "net.Listen", "crypto/tls", "crypto/x509", "os/signal", "net/rpc server"],
-     "gRPC plugins and versioned sets in this run; the bytes go-plugin's logger writes to stderr",
+     "what go-plugin's logger writes to stderr; TLSProvider failures",
      text="Bounded symbolic model checking of the real Serve (cookie validation, protocolVersion, real serverListener_unix/rmListener over a ghost file system, AutoMTLS branch, RPCServer.Init, the printed line, the stdout swap) with the cookie value in the environment an arbitrary string: wrong/missing cookie or empty configured key/value => exit status 1, no listener, nothing on stdout; otherwise the listener exists before the first stdout write and that write is one line of exactly six fields, seven iff the mux variable is non-empty.",
      note="Bound: net/rpc plugin, one cookie pair, mux variable in three classes. Listener/file system/process exit are models. " + ENGINE)
 
